@@ -1770,8 +1770,8 @@ class FDE:
                 t = target[1]
                 if t.name not in self.stubs and t.qualname not in self.stubs:
                     return self._invoke(t, args, kwargs)
-                if t.is_static:
-                    # Class.static_method(args): there is no receiver among the arguments
+                if t.is_static or t.cls is None:
+                    # Class.static_method(args) / module.function(args): there is no receiver among the arguments
                     self.effects.append(('call', t.name, None, tuple(args), tuple(sorted(kwargs.items()))))
                     return self.stub(t.name, None, list(args), kwargs) if self.stub is not None else None
                 self.effects.append(('call', t.name, args[0] if args else None, tuple(args[1:]), tuple(sorted(kwargs.items()))))
